@@ -44,6 +44,16 @@ func corpus(w *lib.Writer) {
 		{"7fffffffffffffff", 16}, {"8000000000000000", 16}, {"-8000000000000000", 16}, {"-8000000000000001", 16}, {"1_0", 16}, {" 11\r", 2}, {"", 16}, {"-", 16}, {"12", 2}} {
 		runCase(w, in{Kind: "numb", S: hx(c.s), Base: c.b})
 	}
+	for _, l := range []string{`"\300"`, `"\999"`, `'a\256b'`, `"\255\0"`} { // escapes above 255 are errors
+		runCase(w, in{Kind: "lit", S: hx(l)})
+	}
+	runCase(w, in{Kind: "numb", S: hx("0x10"), Base: 16})
+	runCase(w, in{Kind: "numb", S: hx("ffffffffffffffff"), Base: 16})
+	runCase(w, in{Kind: "numb", S: hx("--10"), Base: 2}) // seeded C16-8
+	runCase(w, in{Kind: "numbn", Z: 10, Base: 16})
+	runCase(w, in{Kind: "numberr", S: hx("0b101"), Base: 0})
+	runCase(w, in{Kind: "numthen", S: hx("0x1e"), Rest: hx("+1")}) // seeded C16-7
+	runCase(w, in{Kind: "numthen", S: hx("0xE"), Rest: hx("-1")})
 	for _, f := range []string{"%a %x", "%c", "%j", "%a %A %b %B %d %H %I %m %M %p %S %w %X %y %Y %Z %%", "%", "%%%", "%q%", "%F %P %z", "!%m!", "!"} {
 		runCase(w, in{Kind: "strf", S: hx(f), T: 0}) // C16-6
 		runCase(w, in{Kind: "strf", S: hx(f), T: 951827696})
@@ -457,7 +467,9 @@ func genNumerals(w *lib.Writer, r *lib.Rand, tier string) {
 		bound := new(strings.Builder)
 		bound.WriteString(strconv.FormatInt(math.MaxInt64, b))
 		for _, s := range []string{bound.String(), "-" + bound.String(), strconv.FormatUint(1<<63, b), "-" + strconv.FormatUint(1<<63, b),
-			"-" + strconv.FormatUint(1<<63+1, b), string(digs[b-1]), string(digs[b%36]), "10", " 10 ", "\t-10\r", "+10", "1.0", "0x10", "", "1e2"} {
+			"-" + strconv.FormatUint(1<<63+1, b), string(digs[b-1]), string(digs[b%36]), "10", " 10 ", "\t-10\r", "+10", "1.0", "0x10", "", "1e2",
+			"--10", "+-10", "-+10", "++1", "- 10", "-", "+", "0X1f", "-0x10", "0x-10", "0x+1", "0x", "+0x", "00x1", strconv.FormatUint(math.MaxUint64, b),
+			"-" + strconv.FormatUint(math.MaxUint64, b), "1" + strings.Repeat("0", 70), strings.Repeat(string(digs[b-1]), 41)} {
 			runCase(w, in{Kind: "numb", S: hx(s), Base: b})
 		}
 		for i := 0; i < nb; i++ {
@@ -489,6 +501,39 @@ func genNumerals(w *lib.Writer, r *lib.Rand, tier string) {
 			}
 			runCase(w, in{Kind: "numb", S: hx(sb.String()), Base: b})
 		}
+	}
+}
+
+// genBases: tonumber's base argument itself (range check), a number as first argument, and the
+// extent of a number token in running text.
+func genBases(w *lib.Writer, r *lib.Rand, tier string) {
+	for _, b := range []int{-1, 0, 1, 2, 10, 16, 36, 37, 64, 100} {
+		for _, s := range []string{"1", "0b101", "1_0", "0x10", "10", ""} {
+			runCase(w, in{Kind: "numberr", S: hx(s), Base: b})
+		}
+	}
+	for _, z := range []int64{0, 7, 10, -10, 11, 255, 101, 1 << 53, -(1 << 40), 123456789} {
+		for _, b := range []int{2, 8, 10, 16, 36} {
+			runCase(w, in{Kind: "numbn", Z: z, Base: b})
+		}
+	}
+	rests := []string{"", "+1", "-1", "+", "-", " ", ")", ",", "*2", "..", ".5", ".", "e", "E1", "x", "_", "\n", "]", "==1", "p1", "\x00", "\xff", "and"}
+	us := []string{"0x1e", "0xE", "0x1E", "0xe", "0Xfe", "1e5", "1E+5", "5", "5.", ".5", "0", "00", "1e", "0x", "3.14", "0x10"}
+	for _, u := range us {
+		for _, rest := range rests {
+			runCase(w, in{Kind: "numthen", S: hx(u), Rest: hx(rest)})
+		}
+	}
+	n := 200
+	if tier == "thorough" {
+		n = 4000
+	}
+	for i := 0; i < n; i++ {
+		u := randNumeral(r)
+		if len(u) > 40 {
+			u = u[:40]
+		}
+		runCase(w, in{Kind: "numthen", S: hx(u), Rest: hx(rests[r.Intn(len(rests))])})
 	}
 }
 
